@@ -23,14 +23,39 @@ type world struct{ log []string }
 
 // Pair is the real container (with the CORS filter) and its twin (without).
 type Pair struct {
-	Real, Twin   *restful.Container
-	realW, twinW *world
+	Real, Twin     *restful.Container
+	realW, twinW   *world
+	realWS, twinWS []*restful.WebService // the registered WebService objects, in table order
 }
 
-func buildOne(tbl routing.Config, f *Filter) (c *restful.Container, w *world, err error) {
+// routeOf builds route r of service s: the shared generated route with this stream's route function.
+func routeOf(w *world, ws *restful.WebService, s routing.Service, r routing.RouteDecl) *restful.RouteBuilder {
+	b := routing.RouteBuilder(ws, s, r)
+	b.To(func(req *restful.Request, resp *restful.Response) {
+		w.log = append(w.log, fmt.Sprintf("h:%d:%d", s.ID, r.ID))
+		if req.Request.Header.Get(retryHeader) != "" && req.Attribute("attempt") == nil {
+			// the first attempt of a retried request gives up without committing the response
+			req.SetAttribute("attempt", 1)
+			return
+		}
+		resp.AddHeader("X-Handler", fmt.Sprintf("%d", r.ID))
+		if r.ID%3 == 0 {
+			resp.AddHeader("X-Handler", "again") // a multi-valued header from user code
+		}
+		status := 200
+		if r.ID%4 == 1 {
+			status = 201
+		}
+		resp.WriteHeader(status)
+		fmt.Fprintf(resp, "route %d of service %d on %s", r.ID, s.ID, req.Request.URL.Path)
+	})
+	return b
+}
+
+func buildOne(tbl routing.Config, f *Filter, dynamic bool) (c *restful.Container, w *world, wss []*restful.WebService, err error) {
 	defer func() {
 		if r := recover(); r != nil {
-			c, err = nil, fmt.Errorf("build panic: %v", r)
+			c, wss, err = nil, nil, fmt.Errorf("build panic: %v", r)
 		}
 	}()
 	w = &world{}
@@ -89,45 +114,67 @@ func buildOne(tbl routing.Config, f *Filter) (c *restful.Container, w *world, er
 			w.log = append(w.log, fmt.Sprintf("svc:%d", s.ID))
 			chain.ProcessFilter(req, resp)
 		})
+		ws.SetDynamicRoutes(dynamic)
 		for _, r := range s.Routes {
-			r := r
-			b := routing.RouteBuilder(ws, s, r)
-			b.To(func(req *restful.Request, resp *restful.Response) {
-				w.log = append(w.log, fmt.Sprintf("h:%d:%d", s.ID, r.ID))
-				if req.Request.Header.Get(retryHeader) != "" && req.Attribute("attempt") == nil {
-					// the first attempt of a retried request gives up without committing the response
-					req.SetAttribute("attempt", 1)
-					return
-				}
-				resp.AddHeader("X-Handler", fmt.Sprintf("%d", r.ID))
-				if r.ID%3 == 0 {
-					resp.AddHeader("X-Handler", "again") // a multi-valued header from user code
-				}
-				status := 200
-				if r.ID%4 == 1 {
-					status = 201
-				}
-				resp.WriteHeader(status)
-				fmt.Fprintf(resp, "route %d of service %d on %s", r.ID, s.ID, req.Request.URL.Path)
-			})
-			ws.Route(b)
+			ws.Route(routeOf(w, ws, s, r))
 		}
 		c.Add(ws)
+		wss = append(wss, ws)
 	}
-	return c, w, nil
+	return c, w, wss, nil
 }
 
 // Build constructs the real container and its twin. Public API only.
-func Build(tbl routing.Config, f Filter) (*Pair, error) {
-	rc, rw, err := buildOne(tbl, &f)
+func Build(tbl routing.Config, f Filter) (*Pair, error) { return build(tbl, f, false) }
+
+func build(tbl routing.Config, f Filter, dynamic bool) (*Pair, error) {
+	rc, rw, rws, err := buildOne(tbl, &f, dynamic)
 	if err != nil {
 		return nil, err
 	}
-	tc, tw, err := buildOne(tbl, nil)
+	tc, tw, tws, err := buildOne(tbl, nil, dynamic)
 	if err != nil {
 		return nil, err
 	}
-	return &Pair{Real: rc, Twin: tc, realW: rw, twinW: tw}, nil
+	return &Pair{Real: rc, Twin: tc, realW: rw, twinW: tw, realWS: rws, twinWS: tws}, nil
+}
+
+// Apply makes the change on the registered WebService of both containers. tbl is the table in force
+// before it; the number of routes the service holds afterwards must be the one Change.Apply predicts
+// (otherwise the harness, not the library, is out of step and the run stops).
+func (p *Pair) Apply(tbl routing.Config, ch *Change) (err error) {
+	defer func() {
+		if r := recover(); r != nil {
+			err = fmt.Errorf("route table change panicked: %v", r)
+		}
+	}()
+	if ch.Svc < 0 || ch.Svc >= len(tbl.Services) {
+		return nil
+	}
+	s := tbl.Services[ch.Svc]
+	want := len(ch.Apply(tbl).Services[ch.Svc].Routes)
+	for k, wss := range [][]*restful.WebService{p.realWS, p.twinWS} {
+		ws := wss[ch.Svc]
+		if ch.Kind == "route" {
+			ws.Route(routeOf([]*world{p.realW, p.twinW}[k], ws, s, ch.Route))
+		} else {
+			// the path as the library spells it: that of a route it holds with this method and template, else the harness's own spelling
+			path := FullPath(s.Root, ch.Route.Rel)
+			for i, r := range s.Routes {
+				if r.Method == ch.Route.Method && FullPath(s.Root, r.Rel) == path && i < len(ws.Routes()) {
+					path = ws.Routes()[i].Path
+					break
+				}
+			}
+			if err := ws.RemoveRoute(path, ch.Route.Method); err != nil {
+				return err
+			}
+		}
+		if got := len(ws.Routes()); got != want {
+			return fmt.Errorf("after %s the WebService holds %d routes, the harness expects %d", ch.String(tbl), got, want)
+		}
+	}
+	return nil
 }
 
 const retryHeader = "X-Verif-Retry"
@@ -231,12 +278,19 @@ func (p *Pair) Probe(r Req, method string) int {
 
 // Execute runs the whole history on one pair.
 func Execute(c *Case) ([]Obs, *Pair, error) {
-	p, err := Build(c.Table, c.F)
+	p, err := build(c.Table, c.F, c.needsDynamic())
 	if err != nil {
 		return nil, nil, err
 	}
 	obs := make([]Obs, len(c.Reqs))
+	tbl := c.Table
 	for i, r := range c.Reqs {
+		if r.Change != nil {
+			if err := p.Apply(tbl, r.Change); err != nil {
+				return nil, nil, err
+			}
+			tbl = r.Change.Apply(tbl)
+		}
 		obs[i] = p.Observe(r)
 	}
 	return obs, p, nil
